@@ -383,7 +383,7 @@ def runUserSection (r : Report) (sec : Section) (user : String) (probes : List N
               r := r.violation sec.idx l.idx s!"member-only: {user}.{method} sent {cmd} to {addr}, which owns no virtual node, conf=[{confInst}]"
             else if !cmdOk expectedOf (multiKey base) keys (addr, shown) then
               -- `cmdOk` (Spec.lean) is proven sound for the model: `monitor_sound_dispatch`
-              let bad := if multiKey base then (shown.filter fun k => keys.contains k && expectedOf k != addr) else keys
+              let bad := if multiKey base then dedupSorted (shown.filter fun k => keys.contains k && expectedOf k != addr) else keys
               r := r.violation sec.idx l.idx s!"dispatch: {user}.{method} sent {cmd} to {addr} but the ring maps its key {",".intercalate bad} to {",".intercalate (bad.map expectedOf)}, conf=[{confInst}] args=[{strsT}]"
     | _ => r := r.mismatch sec.idx l.idx "bad-op" (joinSp l.op)
   return r
